@@ -18,6 +18,10 @@ func Run(o *drv.Out) {
 	for i := 0; i < chains; i++ {
 		o.Case(fmt.Sprintf("chain-%d", i))
 		g := ledger.RandomGenesis(o.Rng)
+		dex := i%8 == 7 // every 8th chain ends with counter-chain DEX batches (oracle-only: C20 models the DEX)
+		if dex {
+			g.AddPool(2+ledger.LiquidityPoolAddend, uint64(1_000_000_000+o.Rng.Int63n(1<<40)))
+		}
 		c, ok := ledger.NewChain(o, "C04", g)
 		if !ok {
 			o.Count("genesis.rejected")
@@ -26,6 +30,9 @@ func Run(o *drv.Out) {
 		o.Count("genesis.ok")
 		for b := 0; b < blocks; b++ {
 			c.RandomBlock(o.Rng)
+		}
+		if dex && !c.NearMax {
+			c.RandomDexBatches(o.Rng)
 		}
 		c.Finish()
 	}
